@@ -1,2 +1,3 @@
 import BufProofs.Props.C13
 import BufProofs.Props.C14
+import BufProofs.Props.C15
